@@ -71,7 +71,7 @@ func StartOpt(tickMs, electionMs uint) (*Etcd, error) {
 	return &Etcd{Srv: srv, cfg: cfg, ep: cfg.LCUrls[0].String()}, nil
 }
 
-func (e *Etcd) Endpoint() string { return e.ep }
+func (e *Etcd) Endpoint() string      { return e.ep }
 func (e *Etcd) Config() *embed.Config { return e.cfg }
 
 func (e *Etcd) Close() {
